@@ -210,6 +210,10 @@ FIXED = ['', ' ', '\n\n', 'fragment', 'fragment a', 'fragment a{', 'fragment a{C
          'fragment a{C labeled c1 C labeled c2 double bond to c1 stereo double bond c1 cis to c2 for double bond between c1 and c2}']
 
 
+# texts that END inside or right after a number
+FIXED += ['rule m{ reactant r{ C. labeled c1} modify number of radical (c1, 1', 'rule m{ reactant r{ C. labeled c1} modify number of radical (c1, 12',
+          'rule m{ reactant r{ C. labeled c1} modify number of radical (c1, ', 'rule k{ reactant r{ C labeled c1} constraints{ r.formula is C 2',
+          'rule k{ reactant r{ C labeled c1} constraints{ r.formula is C2H6', 'fragment a{C labeled c1 {connected to >1', 'fragment a{C labeled c1 {in ring of size 6']
 # the same unknown element asked for several times in one process (atom, bonded atom, constraint, lower-case / aromatic spelling)
 SAME_PROCESS = ['fragment s%d{%s}' % (i, b) for i, b in enumerate([
     'Qq labeled c1', 'Qq labeled c1', 'qq labeled c1', 'C labeled c1 {connected to Qq}', 'C labeled c1 Qq labeled c2 single bond to c1',
@@ -233,6 +237,17 @@ def long_chain(n):
     for i in range(1, n):
         s += ' C labeled c%d single bond to c%d' % (i, i - 1)
     return s + '}'
+
+
+def long_rule(n):
+    """n transformations in one rule (balanced: every increase is undone)"""
+    ed = ' '.join('increase formal charge (c1) decrease formal charge (c1)' for _ in range(n // 2))
+    return 'rule lr{ reactant r{ C labeled c1} %s }' % ed
+
+
+def long_constraints(n):
+    """n constraints on one atom"""
+    return 'fragment a{C labeled c1 {%s}}' % ', '.join('connected to >%d H' % (i % 2) for i in range(n))
 
 
 # ---------- reaction rules (C16) ----------
